@@ -820,6 +820,8 @@ impl<N: Marker> Drop for Node<N> {
         let mut stack = Vec::new();
         push_children(&mut stack, std::mem::replace(&mut self.inner, Inner::Unit));
         while let Some(child) = stack.pop() {
+            #[cfg(feature = "verif-hooks")]
+            crate::verif_hooks::sched_point(crate::verif_hooks::SchedPoint::NodeDrop);
             if let Some(mut child) = Arc::into_inner(child) {
                 push_children(&mut stack, std::mem::replace(&mut child.inner, Inner::Unit));
             }
